@@ -172,6 +172,9 @@ func (c *Clients) do(cl int, kind string, inc *Inc) *Call {
 		call.Payload = fmt.Sprintf("c%d-%d", cl, c.seqNo[cl])
 		run = func() error {
 			f := r.Apply([]byte(call.Payload), timeout)
+			if w.cfg.Faults["blip_leader"] > 0 && !w.quiet && r.State() == raft.Leader && w.ch.Chance(simrt.SFault, 1, 25) {
+				w.flt.inject("blip_leader") // fault placed inside the write
+			}
 			err := f.Error()
 			if err == nil {
 				call.Index = f.Index()
@@ -199,7 +202,14 @@ func (c *Clients) do(cl int, kind string, inc *Inc) *Call {
 		c.outstandingVerify[inc.node.idx]++
 		run = func() error {
 			defer func() { c.outstandingVerify[inc.node.idx]-- }()
-			return r.VerifyLeader().Error()
+			f := r.VerifyLeader()
+			// fault placed inside the operation: the heartbeats that carry this request fail in
+			// the transport, then the links come back before the lease runs out
+			if w.cfg.Faults["blip_leader"] > 0 && !w.quiet && r.State() == raft.Leader && w.ch.Chance(simrt.SFault, 1, 3) {
+				w.flt.inject("blip_leader")
+				return f.Error()
+			}
+			return f.Error()
 		}
 	case "getconfig":
 		run = func() error {
